@@ -366,6 +366,39 @@ def is_from_macro(span, crates=None, names=None):
     return crates is None and names is None
 
 
+ASSERT_MACROS = ('assert', 'debug_assert', 'assert_eq', 'debug_assert_eq', 'assert_ne', 'debug_assert_ne',
+                 '$crate::assert', '$crate::assert_eq', '$crate::assert_ne')
+PANIC_FAMILY = ('std::panicking::panic', 'std::panicking::panic_fmt', 'std::panicking::assert_failed',
+                'std::panicking::panic_display', 'std::panicking::panic_str', 'std::panicking::panic_explicit',
+                'std::rt::panic_fmt', 'std::rt::begin_panic', 'std::panicking::begin_panic', 'std::panicking::assert_failed_inner',
+                'std::panicking::panic_nounwind')
+
+
+def is_assert_failure(body, bb, depth=0):
+    """does control reaching block bb fail an `assert!`-family check: the block (or the straight-line blocks it falls
+    into) calls a panic function from inside the expansion of an assertion macro"""
+    key = ('_af', bb)
+    cache = body.__dict__.setdefault('_af_cache', {})
+    if key in cache:
+        return cache[key]
+    cache[key] = False
+    res = False
+    blk = body.blocks[bb]
+    t = blk['term']
+    if t['k'] == 'call':
+        fn = t['func'].get('fn') if isinstance(t.get('func'), dict) else None
+        nm = callee_name(fn) if fn else ''
+        if nm in PANIC_FAMILY and is_from_macro(blk['tspan'], names=ASSERT_MACROS):
+            res = True
+        elif fn and t.get('target') is not None and depth < 6 and is_from_macro(blk['tspan'], names=ASSERT_MACROS):
+            # formatting the message first (`assert!(c, "..{}", x)`): fmt::Arguments::new.. then panic_fmt
+            res = is_assert_failure(body, t['target'], depth + 1)
+    elif t['k'] == 'goto' and depth < 6:
+        res = is_assert_failure(body, t['target'], depth + 1)
+    cache[key] = res
+    return res
+
+
 def in_tracing(span):
     return is_from_macro(span, crates=('tracing', 'tracing_core', 'log'))
 
